@@ -222,22 +222,26 @@ def rules(ck, P):
         # the coordinate handed to the reader is built from the three parsed parts in z/x/y order
         tc = [n for n in ir.walk_nodes(b["body"]) if n.get("k") == "call" and (n.get("q") or "").endswith("TileCoord3::new")]
         okc = False
-        if tc:
-            names = [ir.place_str(a) for a in tc[0]["a"]]
-            okc = names == ["x", "y", "z"]
+        if tc and len(tc[0]["a"]) == 3:
             lets = comp.lets_of(b)
-            src = {}
-            for nm in ("x", "y", "z"):
-                for h, init in lets.items():
-                    pass
-            # which part index feeds which variable
-            idx = {}
-            for n in ir.walk_nodes(b["body"]):
-                if n.get("k") == "let" and n["pat"].get("k") == "bind" and n["pat"]["name"] in ("x", "y", "z") and "init" in n:
-                    for y in ir.walk_nodes(n["init"]):
-                        if y.get("k") == "index" and ir.place_str(y["e"]) == "parts":
-                            idx.setdefault(n["pat"]["name"], ir.const_eval(y["i"], {}))
-            okc = okc and idx.get("z") == 0 and idx.get("x") == 1 and idx.get("y") == 2
+
+            def part_index(e, depth=0):
+                """index of the path part (Vec<String> element) an expression is parsed from, through let chains"""
+                if e is None or depth > 6:
+                    return None
+                for y in ir.walk_nodes(e):
+                    if y.get("k") == "index" and "Vec<std::string::String>" in ((ir.strip(y["e"]).get("t") or "") + (ir.strip(y["e"]).get("ta") or "")):
+                        v = ir.const_eval(y["i"], {})
+                        if v is not None:
+                            return v
+                for y in ir.walk_nodes(e):
+                    if y.get("k") == "path" and y.get("r") == "local" and y["hid"] in lets:
+                        v = part_index(lets[y["hid"]], depth + 1)
+                        if v is not None:
+                            return v
+                return None
+            idx = [part_index(a) for a in tc[0]["a"]]
+            okc = idx == [1, 2, 0]
         ck.check(okc, "R-STATUS", b["q"] + "|zxy", "path parts 0/1/2 are z/x/y and TileCoord3::new(x, y, z) receives them", "coordinate assembly does not follow /z/x/y", ir.loc(b))
 
     # ---------------- R-HANDLER-TOTAL
